@@ -1,7 +1,11 @@
 CONSTANTS
   Impl = "asis"
   Codecs = {"h264", "h265"}
+  MTUs = {128}
+  Sizes = {"s", "b"}
   MaxNals = 2
+  Openers = {FALSE}
+  Aggs = {TRUE, FALSE}
   Types264 = {1, 5, 6, 7, 8}
   Types265 = {1, 19, 32, 33, 34, 39}
   Emit = FALSE
